@@ -31,6 +31,7 @@ class RefPolicy(Policy):
     loop_unroll = 2
     inline_depth = 0
     emit_setitem = True
+    emit_getitem = True
 
     def __init__(self, raise_at_eval=False, raise_at_call=False):
         super().__init__(None)
@@ -272,6 +273,7 @@ class RefInterp(Interp):
             for c, base in self.ev(tgt.value, cfg, out):
                 for c1, idx in self.ev(tgt.slice, c, out):
                     cur = self.getitem(base, idx)
+                    c1 = c1.emit(("getitem", base, idx))
                     for c2, v in self.ev(stmt.value, c1, out):
                         new = self.binop(stmt.op, cur, v, inplace=True)
                         out.add("normal", c2.emit(("setitem", base, idx, new)))
